@@ -541,7 +541,15 @@ type MemberExpression struct {
 }
 
 func (me *MemberExpression) WriteTo(cw *CodeWriter) {
+	// `1.x` is read as the number "1." followed by x: an integer literal keeps apart from what follows it
+	_, integerObject := me.Object.(*IntegerLiteral)
+	if integerObject {
+		cw.WriteRune('(')
+	}
 	me.Object.WriteTo(cw)
+	if integerObject {
+		cw.WriteRune(')')
+	}
 	cw.WriteLeadingComments(me.Token.LeadingComments)
 	if me.Computed {
 		cw.AddMapping(me.Token.Start)
